@@ -28,6 +28,19 @@ registry-lock steps are *stuttering* steps for the ownership LTS, and the value 
 the `Owner` oracle's value at `cExit` / `iExit` — so every execution of the product projects to an
 execution of `Owner` (`Lemmas/OwnerEnv.lean: XReach_base`) and inherits all its theorems.
 
+**Composite operations (round 6).**  `WorkerPool.run` and `WorkerPool.call_and_wait` are programs of the product, executed
+step by step by a per-thread controller (`Ctl`): their own yield points are the clock reads of courier_worker.py
+(`time.time()` — the clock is shared with the environment's `tick`), every `time.sleep`, `futures.wait([state])` (blocked until
+the call has been answered) and the `done()` polls of `courier_worker.wait` (each blocked until its call is done: the busy loop
+reads nothing else); between two of them the operation executes one *piece* — a primitive operation of the ownership LTS
+(`aliveWorkers`, `nextIdle`, `submitW`, `acquireAllCall`, `finalize`).  The spin loops are loops of the controller whose exits are
+clock / environment choices (`now - start > 180`, a worker became alive, a reply arrived).  The base thread's script is a
+*prophecy* of the pieces: the controller starts a piece only if it is the next operation of the script (`startPiece`), so every
+execution of the product still projects to an execution of `Owner` step by step, and for every behaviour of the controller there
+is a script that lets it through (the driver computes it and re-runs the schedule against it).  Every way out of the `try:` of the
+two operations goes through the piece `finalize p` (`Ctl.fin`); `run` that fails in `wait_until_alive` — before its `try:` — ends in
+`Ctl.rErr` (not started).
+
 `xstep?` is deterministic once the thread is chosen: a schedule `List Tid` replays exactly
 (`xrun`); the harness compares labels, enabled sets and outcomes with the real code step by step.
 -/
@@ -39,6 +52,7 @@ abbrev Time := Registry.Time
 /-- status of a call's future -/
 inductive CSt where
   | queued | ok | failed
+  | cancelled        -- `future.cancel()` by `CourierClient.shutdown` before the reply: done, `exception()` raises `CancelledError`
   deriving DecidableEq, Repr
 
 def CSt.done : CSt → Bool
@@ -47,8 +61,10 @@ def CSt.done : CSt → Bool
 
 inductive Meth where
   | plain (w : Wid)                 -- `worker.call(..)`: an ordinary RPC to worker `w`
+  | taskRaise (w : Wid)             -- a `maybe_make` call whose task raises at the worker: a delivered reply carries the exception
   | ping (w : Wid)                  -- `_check_heartbeat`: `heartbeat()` to worker `w` (no sender)
   | hb (w : Wid) (alive : Bool)     -- `heartbeat(sender = w, is_alive)` to the master's server
+  | shutdownC (w : Wid)             -- `self._client.futures.shutdown()` of `CourierClient.shutdown` (kept in `self.state` only)
   deriving DecidableEq, Repr
 
 /-- `StateWithTime`: call id and *send* time. -/
@@ -69,6 +85,7 @@ inductive EOp where
   | send (w : Wid) (alive : Bool)       -- submit `heartbeat(addr_w, alive)` to the master (delivered later)
   | deliver (k : Nat) (fail : Bool)     -- the transport delivers (or fails) the k-th queued call now
   | tick (d : Nat)                      -- the clock advances
+  | shutdown (w : Wid)                  -- `workers[w].shutdown()` (courier_utils.py:815–821): submit `shutdown`, cancel and forget the pendings — WITHOUT `_states_lock` —, then `unregister`
   deriving DecidableEq, Repr
 
 /-- Thread-local state between two yield points (inside `has_capacity` / `is_alive` / an environment op). -/
@@ -83,6 +100,41 @@ inductive Micro where
   | dieAcq (w : Wid) | dieRel
   | revAcq (w : Wid) (t : Time) | revRel
   | hbAcq (id : Nat) (w : Wid) (alive : Bool) (t : Time) | hbRel (id : Nat)
+  | strAcq (m : Nat) | strRel (m : Nat)   -- `str(w)` of `m` more unconnected workers (error message of `wait_until_alive`): `get` under RL
+  deriving DecidableEq, Repr
+
+/-- How a composite operation ended. -/
+inductive Outc where
+  | ok            -- returned
+  | raised        -- the task raised at the worker, or its reply was an error
+  | noWorker      -- `run`: `ValueError('No worker is available.')` after 180 s
+  | notStarted    -- `run`: `wait_until_alive()` failed before the `try:` (no live worker for 180 s)
+  | disconnected  -- `run`: `worker.submit` → `wait_until_alive` of the chosen worker failed (`RuntimeError`)
+  deriving DecidableEq, Repr
+
+/-- The program of a pool thread: primitive operations of the ownership LTS and composite operations. -/
+inductive TOp where
+  | prim
+  | run (p : Pid) (raises : Bool)           -- `pool.run(task)`; `raises`: the task raises at the worker
+  | callAndWait (p : Pid) (raises : Bool)   -- `pool.call_and_wait(task)`
+  | submitNB (p : Pid) (w : Wid) (raises : Bool)   -- `w.submit(task)` with a non-blocking task (what `as_completed` does, orchestrate.py:497)
+  deriving DecidableEq, Repr
+
+/-- Program points of the composite operations *between* two pieces (courier_worker.py:287–321, 323–337, 410–430;
+courier_utils.py:594–611, 715–727). -/
+inductive Ctl where
+  | idle
+  | rTick (p : Pid) (r : Bool)                       -- `ticker = time.time()` (pool.wait_until_alive)
+  | rCond (p : Pid) (r : Bool) (ticker : Time)       -- `while time.time() - ticker < 180`
+  | rAlive (p : Pid) (r : Bool) (ticker : Time)      -- in `self.workers`; then `return` / `time.sleep(0)`
+  | rErr (p : Pid)                                   -- in the error message (`self.workers` twice); then `raise ValueError`
+  | rNext (p : Pid) (r : Bool) (st : Time)           -- in `next_idle_worker(maybe_acquire=True)`; then `time.sleep(0)`
+  | rClockN (p : Pid) (r : Bool) (st : Time) (w : Option Wid)   -- `time.time() - start_time > 180`
+  | rSub (p : Pid) (r : Bool) (w : Wid)              -- in `worker.submit(task)` (a piece `submitW`); then sleep / wait
+  | fin (p : Pid) (o : Outc)                         -- in `finally: self.release_all()`
+  | cAcq (p : Pid) (r : Bool)                        -- `call_and_wait`: in `_acquire_all()` + the calls; then `start_time = time.time()`
+  | cWait (p : Pid) (r : Bool) (todo : List Nat)     -- `courier_worker.wait`: polling `done()` of the remaining calls
+  | sSub (p : Pid) (r : Bool) (w : Wid)              -- in `w.submit(task)` called on its own (a piece `submitW`); then sleep / return
   deriving DecidableEq, Repr
 
 structure Env where
@@ -95,14 +147,20 @@ structure Env where
   clients : Wid → Client := fun _ => {}
   mic : Tid → Micro := fun _ => .idle
   escript : Tid → List EOp := fun _ => []
+  mp : Wid → Nat := fun _ => 1             -- `max_parallelism` of the worker
+  prog : Tid → List TOp := fun _ => []     -- programs of pool threads (`[]`: the base script is a list of primitives, as before)
+  ctl : Tid → Ctl := fun _ => .idle
+  outs : Tid → List Outc := fun _ => []    -- outcomes of the finished composite operations
+  sticker : Tid → Time := fun _ => 0       -- `ticker` of `CourierClient.wait_until_alive` (read when its first `is_alive` returned False)
+  tcalls : Tid → List Nat := fun _ => []   -- calls submitted by the thread's current composite operation
 
 def Env.callSt (e : Env) (i : Nat) : CSt := (e.calls[i]?.map (·.2)).getD .queued
 
 def setMic (e : Env) (t : Tid) (m : Micro) : Env := { e with mic := upd e.mic t m }
 
-/-- `has_capacity` with `max_parallelism = 1`: `len([p for p in self._pendings if not p.state.done()]) < 1`. -/
+/-- `has_capacity`: `len([p for p in self._pendings if not p.state.done()]) < self.max_parallelism`. -/
 def capacity (e : Env) (w : Wid) : Bool :=
-  decide (((e.clients w).pend.filter fun p => !(e.callSt p.call).done).length < 1)
+  decide (((e.clients w).pend.filter fun p => !(e.callSt p.call).done).length < e.mp w)
 
 /-- The loop of `_is_heartbeat_fresh` (courier_utils.py:618–629) from its current position: skip
 failed calls, keep unfinished ones, stop at the first finished call that did not fail (it is
@@ -112,7 +170,7 @@ def scan (st : Nat → CSt) : List Pend → List Pend → Option (Pend × List P
   | p :: ps, keep =>
     match st p.call with
     | .ok => (some (p, ps), keep)
-    | .failed => scan st ps keep
+    | .failed | .cancelled => scan st ps keep      -- (`CancelledError` is caught: courier_utils.py:624–626)
     | .queued => scan st ps (keep ++ [p])
 
 /-- Position reached by the loop: either the next `refresh`, or its end (`self._pendings = still_pendings`,
@@ -144,10 +202,21 @@ def finishAlive (e : Env) (t : Tid) (w : Wid) (now0 last : Time) : Env :=
   if Registry.fresh now0 last e.thr then setMic e t (.exit true)
   else setMic (if needPing e w then pingEnv e w else e) t (.exit false)
 
-/-- `worker.call(..)` inside its `with self._states_lock:` (courier_utils.py:652–656). -/
-def submitPlain (e : Env) (w : Wid) : Env :=
-  { e with calls := e.calls ++ [(.plain w, .queued)], queue := e.queue ++ [e.calls.length],
-           clients := upd e.clients w { e.clients w with pend := (e.clients w).pend ++ [⟨e.calls.length, e.now⟩] } }
+/-- The task of the composite operation thread `t` is inside raises at the worker. -/
+def taskRaises (e : Env) (t : Tid) : Bool :=
+  match e.ctl t with
+  | .rSub _ r _ => r
+  | .cAcq _ r => r
+  | .sSub _ r _ => r
+  | _ => false
+
+/-- `worker.call(..)` inside its `with self._states_lock:` (courier_utils.py:652–656); the call is remembered as one of
+the calls of the thread's composite operation. -/
+def submitPlain (e : Env) (t : Tid) (w : Wid) : Env :=
+  { e with calls := e.calls ++ [(if taskRaises e t then .taskRaise w else .plain w, .queued)],
+           queue := e.queue ++ [e.calls.length],
+           clients := upd e.clients w { e.clients w with pend := (e.clients w).pend ++ [⟨e.calls.length, e.now⟩] },
+           tcalls := upd e.tcalls t (e.tcalls t ++ [e.calls.length]) }
 
 def setCall (e : Env) (id : Nat) (s : CSt) : Env :=
   { e with calls := e.calls.modify id fun c => (c.1, s) }
@@ -158,6 +227,11 @@ def startE (e : Env) (t : Tid) : EOp → Env
   | .revive w => setMic e t (.revAcq w e.now)
   | .send w al => (e.submit (.hb w al)).1
   | .tick d => { e with now := e.now + d }
+  | .shutdown w =>
+    let ids := (e.clients w).pend.map (·.call)
+    let e1 := (e.submit (.shutdownC w)).1
+    setMic { e1 with calls := e1.calls.mapIdx (fun i c => if ids.contains i && c.2 == .queued then (c.1, .cancelled) else c),
+                     clients := upd e1.clients w { e1.clients w with pend := [] } } t (.dieAcq w)
   | .deliver k fail =>
     match e.queue with
     | [] => e
@@ -165,9 +239,12 @@ def startE (e : Env) (t : Tid) : EOp → Env
       let j := k % q.length
       let id := q.getD j 0
       let e1 := { e with queue := q.eraseIdx j }
-      if fail then setCall e1 id .failed
+      if e.callSt id == .cancelled then e1           -- a cancelled call runs no handler and stays cancelled
+      else if fail then setCall e1 id .failed
       else match e.calls[id]? with
         | some (.hb w al, _) => setMic e1 t (.hbAcq id w al e.now)
+        | some (.taskRaise _, _) => setCall e1 id .failed
+        | some (.shutdownC _, _) => setCall e1 id .failed    -- the transport endpoints of the sched families bind no `shutdown`
         | _ => setCall e1 id .ok
 
 /-- One step of an environment thread. -/
@@ -194,24 +271,121 @@ structure X where
   base : Cfg
   env : Env
 
+/-- A composite operation ends when its last piece does: the `finally: release_all()` (`fin`), or the error message
+of a `run` that did not start (`rErr`). -/
+def settle (e : Env) (t : Tid) (idleNow : Bool) (res : Option Res := none) : Env :=
+  if idleNow then
+    match e.ctl t with
+    | .fin _ o => { e with ctl := upd e.ctl t .idle, outs := upd e.outs t (e.outs t ++ [o]) }
+    | .rErr _ => { e with ctl := upd e.ctl t .idle, outs := upd e.outs t (e.outs t ++ [.notStarted]) }
+    | .sSub _ _ _ =>      -- a `submit` on its own returns as soon as the call has been made
+      if res = some .unit then { e with ctl := upd e.ctl t .idle, outs := upd e.outs t (e.outs t ++ [.ok]) } else e
+    | _ => e
+  else e
+
 /-- An `Owner` step of thread `t` under the oracle value `b`, with an update of the environment. -/
 def ostep (pw : Pid → List Wid) (x : X) (t : Tid) (b : Bool) (f : Env → Env) : Option X :=
-  (step? pw (fun _ => b) x.base t).map fun c' => ⟨c', f x.env⟩
+  (step? pw (fun _ => b) x.base t).map fun c' => ⟨c', settle (f x.env) t (c'.T t).cur.isNone (c'.T t).results.getLast?⟩
+
+/-- Start the piece `op` of a composite operation: it must be the next operation of the thread's script. -/
+def startPiece (pw : Pid → List Wid) (x : X) (t : Tid) (op : Op) (f : Env → Env) : Option X :=
+  match (x.base.T t).script with
+  | op' :: _ => if op' = op then ostep pw x t false f else none
+  | [] => none
+
+def setCtl (e : Env) (t : Tid) (c : Ctl) : Env := { e with ctl := upd e.ctl t c }
+
+/-- `ticker = time.time()` of `CourierClient.wait_until_alive`, read in the step in which its first `is_alive` returned False;
+and the `str(w)` reads that follow the first evaluation of `self.workers` in the error message of `pool.wait_until_alive`. -/
+def afterAlive (e : Env) (t : Tid) (k : K) (b : Bool) : Env :=
+  match k with
+  | .subI _ _ false => if b then setMic e t .idle else setMic { e with sticker := upd e.sticker t e.now } t .idle
+  | .aliveU _ _ [] acc (some ws2) =>
+    let m := min 3 (ws2.length - ((if b then 1 else 0) + acc.length))
+    setMic e t (if m = 0 then .idle else .strAcq m)
+  | _ => setMic e t .idle
+
+def lastRes (x : X) (t : Tid) : Option Res := (x.base.T t).results.getLast?
+
+def allDone (e : Env) (ids : List Nat) : Bool := ids.all fun i => (e.callSt i).done
+def anyFailed (e : Env) (ids : List Nat) : Bool := ids.any fun i => e.callSt i == .failed || e.callSt i == .cancelled
+
+/-- One step of a thread that is inside a composite operation, between two pieces. -/
+def cstep (pw : Pid → List Wid) (x : X) (t : Tid) : Ctl → Option X
+  | .idle => none
+  | .rTick p r => some ⟨x.base, setCtl x.env t (.rCond p r x.env.now)⟩
+  | .rCond p r ticker =>
+    if x.env.now - ticker < 180 then startPiece pw x t (.aliveWorkers p false) fun e => setCtl e t (.rAlive p r ticker)
+    else startPiece pw x t (.aliveWorkers p true) fun e => setCtl e t (.rErr p)
+  | .rAlive p r ticker =>
+    match lastRes x t with
+    | some (.workers (_ :: _)) =>      -- `return`; then `start_time = time.time()` and the first `next_idle_worker`
+      startPiece pw x t (.nextIdle p (pw p) true) fun e => setCtl e t (.rNext p r e.now)
+    | _ => some ⟨x.base, setCtl x.env t (.rCond p r ticker)⟩      -- `time.sleep(0)`
+  | .rErr _ => none
+  | .rNext p r st =>                   -- `time.sleep(0)`
+    match lastRes x t with
+    | some (.worker ow) => some ⟨x.base, setCtl x.env t (.rClockN p r st ow)⟩
+    | _ => none
+  | .rClockN p r st ow =>
+    if x.env.now - st > 180 then startPiece pw x t (.finalize p) fun e => setCtl e t (.fin p .noWorker)
+    else match ow with
+      | none => startPiece pw x t (.nextIdle p (pw p) true) fun e => setCtl e t (.rNext p r st)
+      | some w => startPiece pw x t (.submitW p w 0) fun e => setCtl { e with tcalls := upd e.tcalls t [] } t (.rSub p r w)
+  | .rSub p r w =>
+    match lastRes x t with
+    | some .unit =>                    -- `futures.wait([state])`, then `.result()`, then the `finally`
+      if allDone x.env (x.env.tcalls t) then
+        startPiece pw x t (.finalize p) fun e =>
+          setCtl e t (.fin p (if r || anyFailed e (e.tcalls t) then .raised else .ok))
+      else none
+    | some (.code 1) =>                -- `time.sleep(0.1)`, then `while time.time() - ticker < self.heartbeat_threshold_secs`
+      if x.env.now - x.env.sticker t < x.env.thr then startPiece pw x t (.submitW p w 1) id
+      else startPiece pw x t (.finalize p) fun e => setCtl e t (.fin p .disconnected)
+    | some (.code _) => startPiece pw x t (.submitW p w 2) id      -- `while not self.has_capacity: time.sleep(0)`
+    | _ => none
+  | .fin _ _ => none
+  | .cAcq p r =>                       -- `start_time = time.time()` of `courier_worker.wait`
+    match x.env.tcalls t with
+    | [] => startPiece pw x t (.finalize p) fun e => setCtl e t (.fin p (if r then .raised else .ok))
+    | ids => some ⟨x.base, setCtl x.env t (.cWait p r ids)⟩
+  | .cWait p r todo =>                 -- `task.done()` in the busy loop of `courier_worker.wait`
+    match todo with
+    | [] => none
+    | [i] =>
+      if (x.env.callSt i).done then
+        startPiece pw x t (.finalize p) fun e =>
+          setCtl e t (.fin p (if r || anyFailed e (e.tcalls t) then .raised else .ok))
+      else none
+    | i :: rest => if (x.env.callSt i).done then some ⟨x.base, setCtl x.env t (.cWait p r rest)⟩ else none
+  | .sSub p r w =>
+    match lastRes x t with
+    | some (.code 1) =>                -- `time.sleep(0.1)`, then the deadline of `wait_until_alive`
+      if x.env.now - x.env.sticker t < x.env.thr then startPiece pw x t (.submitW p w 1) id
+      else some ⟨x.base, { setCtl x.env t .idle with outs := upd x.env.outs t (x.env.outs t ++ [.disconnected]) }⟩
+    | some (.code _) => startPiece pw x t (.submitW p w 2) id      -- `while not self.has_capacity: time.sleep(0)`
+    | _ => none
+
+def popProg (e : Env) (t : Tid) : Env := { e with prog := upd e.prog t (e.prog t).tail }
 
 /-- One step of thread `t` of the product (`none`: blocked or finished). -/
 def xstep? (pw : Pid → List Wid) (x : X) (t : Tid) : Option X :=
   match (x.base.T t).cur with
-  | some (cl, _) =>
+  | some (cl, k) =>
     match cl.pc with
     | .cEnter => ostep pw x t false fun e => setMic e t (.cap (capacity e cl.w))
     | .cExit =>
       match x.env.mic t with
       | .cap b => ostep pw x t b fun e => setMic e t .idle
       | _ => none
-    | .iEnter => ostep pw x t false fun e => afterScan e t cl.w (scan e.callSt (e.clients cl.w).pend [])
+    | .iEnter =>
+      match x.env.mic t with
+      | .strAcq m => if x.env.rl = none then some ⟨x.base, setMic { x.env with rl := some t } t (.strRel m)⟩ else none
+      | .strRel m => some ⟨x.base, setMic { x.env with rl := none } t (if m ≤ 1 then .idle else .strAcq (m - 1))⟩
+      | _ => ostep pw x t false fun e => afterScan e t cl.w (scan e.callSt (e.clients cl.w).pend [])
     | .iExit =>
       match x.env.mic t with
-      | .exit b => ostep pw x t b fun e => setMic e t .idle
+      | .exit b => ostep pw x t b fun e => afterAlive e t k b
       | .foldAcq p todo keep =>
         if x.env.rl = none then
           some ⟨x.base, setMic { x.env with rl := some t, reg := Registry.refresh x.env.reg cl.w p.time } t
@@ -225,12 +399,26 @@ def xstep? (pw : Pid → List Wid) (x : X) (t : Tid) : Option X :=
         else none
       | .getRel now0 last => some ⟨x.base, finishAlive { x.env with rl := none } t cl.w now0 last⟩
       | _ => none
-    | .kEnter => ostep pw x t false fun e => submitPlain e cl.w
+    | .kEnter => ostep pw x t false fun e => submitPlain e t cl.w
     | _ => ostep pw x t false id
   | none =>
-    match (x.base.T t).script with
-    | _ :: _ => ostep pw x t false id
-    | [] => (estep x.env t).map fun e' => ⟨x.base, e'⟩
+    match x.env.ctl t with
+    | .idle =>
+      match x.env.prog t with
+      | .run p r :: _ => some ⟨x.base, setCtl { popProg x.env t with tcalls := upd x.env.tcalls t [] } t (.rTick p r)⟩
+      | .callAndWait p r :: _ =>
+        startPiece pw x t (.acquireAllCall p) fun e => setCtl { popProg e t with tcalls := upd e.tcalls t [] } t (.cAcq p r)
+      | .submitNB p w r :: _ =>
+        startPiece pw x t (.submitW p w 0) fun e => setCtl { popProg e t with tcalls := upd e.tcalls t [] } t (.sSub p r w)
+      | .prim :: _ =>
+        match (x.base.T t).script with
+        | _ :: _ => ostep pw x t false fun e => popProg e t
+        | [] => none
+      | [] =>
+        match (x.base.T t).script with
+        | _ :: _ => ostep pw x t false id
+        | [] => (estep x.env t).map fun e' => ⟨x.base, e'⟩
+    | c => cstep pw x t c
 
 /-- Reachability in the product. -/
 inductive XReach (pw : Pid → List Wid) (x0 : X) : X → Prop where
@@ -250,14 +438,14 @@ def regEvents (x : X) (t : Tid) : List Registry.REv :=
     | .iExit, .foldAcq p _ _ => [.refresh cl.w p.time]
     | _, _ => []
   | none =>
-    match (x.base.T t).script with
-    | _ :: _ => []
-    | [] =>
+    match x.env.ctl t, x.env.prog t, (x.base.T t).script with
+    | .idle, [], [] =>
       match x.env.mic t with
       | .dieAcq w => [.unregister w]
       | .revAcq w tm => [.register w tm]
       | .hbAcq _ w al tm => Registry.heartbeatEvents tm (some w) al
       | _ => []
+    | _, _, _ => []
 
 /-- No step of the replayed schedule performs a `register a` (no `revive a`, no delivered
 `heartbeat(a, is_alive=True)`). -/
